@@ -385,7 +385,7 @@ fn spec(t: Tier) -> Spec {
     Spec {
         id: "C04",
         level: "model_checking",
-        rule: format!("{} configurations (mode in none,-n1,-n2,-n3,-L1,-L2,'-n2 -L1','-L2 -n1' x -s in absent, base+k x -x x -r x initial args); for each an explicit-state BFS over the implementation's own batching state (hook H3 snapshot: every limiter's counters, lengths of the batch under construction, pending flag, sticky result; plus the reader's unconsumed terminator) from the empty history, input symbols = argument in {{1,2,3,6 ASCII bytes, 'é' (2 bytes, 1 character), the empty argument written \"\"}} x terminator in {{blank, newline, blank+newline}}; a state seen before is not expanded; every expanded history is run to EOF through the real xargs_main and its invocations (hook H2) compared with the reference greedy batcher (lossless, in order, command+initial args unchanged, -n/-L/-s respected simultaneously, maximal, empty-input rule, fatal overflow rule); configurations whose state space is finite are explored to closure, the unbounded ones (no -s and no -n) to depth {}; plain enumeration without hashing to depth {} cross-checks the canonicalisation; scale slice: inputs of 100, 1000 and 5000 arguments (lengths cycling 1..13 bytes, é and empty arguments interspersed, lines of 1..5 arguments, some ending in a blank) under -n 7|64|1000, -L 3|100, both orders of -n/-L, -s base+50|1000|5000|100000, -x on/off, with/without initial arguments, each end to end against the reference batcher; spelling slice: every way of writing -n, -L, -s, -x, -r, -P 1 and -a FILE (separate, attached, long, long with '=') on four inputs gives the invocations, status and diagnostics-or-not of the first spelling; binary slice: all histories <= {} for 8 configurations through the xargs binary and a recorder child", configs(t).len(), t.pick(3, 4), t.pick(2, 3), t.pick(2, 3)),
+        rule: format!("{} configurations (mode in none,-n1,-n2,-n3,-L1,-L2,'-n2 -L1','-L2 -n1' x -s in absent, base+k x -x x -r x initial args); for each an explicit-state BFS over the implementation's own batching state (hook H3 snapshot: every limiter's counters, lengths of the batch under construction, pending flag, sticky result; plus the reader's unconsumed terminator) from the empty history, input symbols = argument in {{1,2,3,6 ASCII bytes, 'é' (2 bytes, 1 character), the empty argument written \"\"}} x terminator in {{blank, newline, blank+newline}}; a state seen before is not expanded; every expanded history is run to EOF through the real xargs_main and its invocations (hook H2) compared with the reference greedy batcher (lossless, in order, command+initial args unchanged, -n/-L/-s respected simultaneously, maximal, empty-input rule, fatal overflow rule); configurations whose state space is finite are explored to closure, the unbounded ones (no -s and no -n) to depth {}; plain enumeration without hashing to depth {} cross-checks the canonicalisation; scale slice: inputs of 100, 1000 and 5000 arguments (lengths cycling 1..13 bytes, é and empty arguments interspersed, lines of 1..5 arguments, some ending in a blank) under -n 7|64|1000, -L 3|100, both orders of -n/-L, -s base+50|1000|5000|100000, -x on/off, with/without initial arguments, each end to end against the reference batcher; spelling slice: every way of writing -n, -L, -s, -x, -r, -P 1 and -a FILE (separate, attached, long, long with '=') on four inputs gives the invocations, status and diagnostics-or-not of the first spelling; echo slice: xargs without a command writing to a pipe, four runs ending with an error (unterminated quote, oversized argument, -x overflow) and two ending normally: what the command lines already run wrote has arrived, status 1 / 0; binary slice: all histories <= {} for 8 configurations through the xargs binary and a recorder child", configs(t).len(), t.pick(3, 4), t.pick(2, 3), t.pick(2, 3)),
         bound: json!({"configs": configs(t).len(), "symbols": 18, "closure_depth_cap": 12, "unbounded_depth": t.pick(3, 4)}),
         assumptions: vec![
             "when -n and -L are both given the one given last decides (they are mutually exclusive)".into(),
